@@ -279,6 +279,36 @@ impl Inner {
         cur
     }
 
+    /// A cycle of hard wait-for edges (mutex owner, rwlock holder, join target): a deadlock that
+    /// stays one whatever the other threads and timers do. Returns a thread on the cycle.
+    fn wait_cycle(&self) -> Option<Tid> {
+        for start in 0..self.threads.len() {
+            if self.threads[start].finished {
+                continue;
+            }
+            let mut seen: Vec<Tid> = vec![start];
+            let mut cur = start;
+            loop {
+                let next = match self.threads[cur].want {
+                    Want::Join(t2) if !self.threads[t2].finished => Some(t2),
+                    Want::Mutex(id) => self.mutex_owner[id],
+                    Want::RwRead(id) => self.rw[id].writer,
+                    Want::RwWrite(id) => self.rw[id].writer.or(self.rw[id].readers.first().copied()),
+                    _ => None,
+                };
+                match next {
+                    Some(n) if n == start && seen.len() > 1 => return Some(start),
+                    Some(n) if n != cur && !seen.contains(&n) => {
+                        seen.push(n);
+                        cur = n;
+                    }
+                    _ => break,
+                }
+            }
+        }
+        None
+    }
+
     fn describe_waits(&self) -> String {
         let mut s = String::new();
         for (t, th) in self.threads.iter().enumerate() {
@@ -451,13 +481,23 @@ impl World {
         }
         debug_assert_eq!(g.current, me, "switch called by a thread that is not current");
         g.steps += 1;
+        g.threads[me].want = want;
+        // a deadlock among some threads while others (a steady ticker, say) keep the world busy
+        // never shows as "nothing runnable": look for a wait-for cycle now and then
+        if g.steps % 512 == 0 || g.steps > g.cfg.step_cap {
+            if g.wait_cycle().is_some() {
+                let d = format!("wait-for cycle (other threads still running): {}", g.describe_waits());
+                g.abort(Some(d));
+                self.done_cv.notify_all();
+                self.park_forever(g);
+            }
+        }
         if g.steps > g.cfg.step_cap {
             g.step_cap_hit = true;
             g.abort(None);
             self.done_cv.notify_all();
             self.park_forever(g);
         }
-        g.threads[me].want = want;
         let next = match g.choose(Some(me)) {
             Some(n) => n,
             None => {
